@@ -1,6 +1,7 @@
-(* C14 -- glue used by the generated correspondence cases (tools/sfv/props/c14.py): each chk_* is a bool saying
+(* C14 -- MODEL side of the glue (the specification side is SF/MissingSpecCheck.v, which this file re-exports) used by the generated correspondence cases (tools/sfv/props/c14.py): each chk_* is a bool saying
    "model / specification applied to the observed input == observed output".  No proofs here. *)
 Require Import SF.Prelude SF.Value SF.Dtype SF.PyDyn Gen.Gen_util Gen.Gen_c14 SF.Missing.
+Require Export SF.MissingSpecCheck.
 
 (* ---- util.isna_array, per element, driven by the REGENERATED kind constants of util.py ---- *)
 Definition kind_in (k : string) (c : pv) : bool :=
@@ -19,11 +20,6 @@ Definition kind_holds (kind : string) (v : val) : bool :=
   else if String.eqb kind "M"%string || String.eqb kind "m"%string then (match v with VNone | VNaN => false | _ => true end)
   else negb (isna v).
 
-Definition blist_eqb := list_eqb Bool.eqb.
-Definition zlist_eqb := list_eqb Z.eqb.
-Definition sdir {A} (fwd : bool) (limit : Z) (l : list (option A)) := if fwd then S_ffill limit l else S_bfill limit l.
-Definition ssided {A} (leading : bool) (v : A) (l : list (option A)) := if leading then S_leading v l else S_trailing v l.
-
 (* ---- kernels ---- *)
 Definition chk_bt (sel : list bool) (out : list Z) : bool := zlist_eqb (M_binary_transition sel) out.
 
@@ -34,70 +30,20 @@ Definition chk_sft (ts vs : list Z) (n : Z) (fwd : bool) (limit : Z) (sel : list
 
 (* ---- one line (Series, or one column / row) ---- *)
 Definition chk_isna_M (kind : string) (inp : list val) (out : list bool) : bool := blist_eqb (map (M_isna_elem kind) inp) out.
-Definition chk_isna_S (inp : list val) (out : list bool) : bool := blist_eqb (S_isna (cells_of inp)) out.
-Definition chk_notna_S (inp : list val) (out : list bool) : bool := blist_eqb (S_notna (cells_of inp)) out.
-Definition chk_count_S (inp : list val) (out : Z) : bool := S_count (cells_of inp) =? out.
-
 Definition chk_dir1d_M fwd limit (inp out : list val) : bool := cells_match (M_dir1d fwd limit (cells_of inp)) out.
-Definition chk_dir1d_S fwd limit (inp out : list val) : bool :=
-  cells_match (sdir fwd limit (cells_of inp)) out && present_kept inp out.
 Definition chk_sided1d_M leading (v : val) (inp out : list val) : bool := cells_match (M_sided1d leading v (cells_of inp)) out.
-Definition chk_sided1d_S leading (v : val) (inp out : list val) : bool :=
-  cells_match (ssided leading v (cells_of inp)) out && present_kept inp out.
-Definition chk_fillna_S (v : val) (inp out : list val) : bool :=
-  cells_match (S_fillna v (cells_of inp)) out && present_kept inp out.
-
-Definition pairs_match (m : list (val * option val)) (olabels : list val) (ovalues : list val) : bool :=
-  vlist_eqb (map fst m) olabels && cells_match (map snd m) ovalues.
-Definition chk_dropna_S (labels inp olabels ovalues : list val) : bool :=
-  pairs_match (S_dropna labels (cells_of inp)) olabels ovalues &&
-  (* the survivors are unaltered *)
-  vlist_eqb (map (fun p => match snd p with Some v => v | None => VNone end) (S_dropna labels (cells_of inp))) ovalues.
-
-Definition chk_fillna_labels_S (labels inp : list val) (olabels ovals : list val) (out : list val) : bool :=
-  cells_match (S_fillna_labels labels (cells_of inp) (combine olabels (cells_of ovals))) out && present_kept inp out.
-
 (* ---- frames: cols = the columns (values down the rows) ---- *)
 Definition chk_dir_axis1_M fwd limit (nrows : nat) (layout : list (nat * bool)) (cols out : list (list val)) : bool :=
   lines_match (M_dir_axis1 bwd_count_from_first fwd limit nrows (blocks_of_columns nrows layout (map cells_of cols))) (transpose nrows out).
-Definition chk_dir_axis1_S fwd limit (nrows : nat) (cols out : list (list val)) : bool :=
-  lines_match (map (sdir fwd limit) (transpose nrows (map cells_of cols))) (transpose nrows out) && present_kept_lines cols out.
 Definition chk_dir_axis0_M fwd limit (cols out : list (list val)) : bool :=
   lines_match (map (fun c => M_dir1d fwd limit (cells_of c)) cols) out.
-Definition chk_dir_axis0_S fwd limit (cols out : list (list val)) : bool :=
-  lines_match (map (fun c => sdir fwd limit (cells_of c)) cols) out && present_kept_lines cols out.
-
 Definition chk_sided_axis1_M leading (v : val) (nrows : nat) (layout : list (nat * bool)) (cols out : list (list val)) : bool :=
   lines_match (M_sided_axis1 leading v nrows (blocks_of_columns nrows layout (map cells_of cols))) (transpose nrows out).
-Definition chk_sided_axis1_S leading (v : val) (nrows : nat) (cols out : list (list val)) : bool :=
-  lines_match (map (ssided leading v) (transpose nrows (map cells_of cols))) (transpose nrows out) && present_kept_lines cols out.
 Definition chk_sided_axis0_M leading (v : val) (cols out : list (list val)) : bool :=
   lines_match (map (fun c => M_sided1d leading v (cells_of c)) cols) out.
-Definition chk_sided_axis0_S leading (v : val) (cols out : list (list val)) : bool :=
-  lines_match (map (fun c => ssided leading v (cells_of c)) cols) out && present_kept_lines cols out.
-
-Definition chk_fillna_frame_S (v : val) (cols out : list (list val)) : bool :=
-  lines_match (map (fun c => S_fillna v (cells_of c)) cols) out && present_kept_lines cols out.
-
 Definition chk_isna_frame_M (kinds : list string) (cols : list (list val)) (out : list (list bool)) : bool :=
   list_eqb blist_eqb (map (fun p => map (M_isna_elem (fst p)) (snd p)) (combine kinds cols)) out &&
   Nat.eqb (length kinds) (length cols).
-Definition chk_isna_frame_S (cols : list (list val)) (out : list (list bool)) : bool :=
-  list_eqb blist_eqb (map (fun c => S_isna (cells_of c)) cols) out.
-Definition chk_notna_frame_S (cols : list (list val)) (out : list (list bool)) : bool :=
-  list_eqb blist_eqb (map (fun c => S_notna (cells_of c)) cols) out.
-Definition chk_count_frame_S (axis1 : bool) (nrows : nat) (cols : list (list val)) (out : list Z) : bool :=
-  zlist_eqb (map (fun c => S_count c) (if axis1 then transpose nrows (map cells_of cols) else map cells_of cols)) out.
-
-(* Frame.dropna: axis 0 drops rows, axis 1 drops columns.  `lines` of the observed result are given the same way
-   (rows for axis 0, columns for axis 1) *)
-Definition chk_dropna_frame_S (axis1 use_any : bool) (nrows : nat) (index columns : list val) (cols : list (list val))
-    (olabels : list val) (olines : list (list val)) : bool :=
-  let lines := if axis1 then cols else transpose nrows cols in
-  let labels := if axis1 then columns else index in
-  let kept := S_dropna_lines use_any labels (map cells_of lines) in
-  vlist_eqb (map fst kept) olabels && lines_match (map snd kept) olines.
-
 (* M: TypeBlocks.dropna_to_keep_locations: the isna blocks are consolidated into ONE Boolean array; it is 2-D unless the frame
    is a single 1-D block (single1d), in which case the pinned code (reshaped = false, read from the source: Gen/Gen_c14.v)
    uses the per-row vector itself whatever the axis; otherwise the
@@ -107,16 +53,5 @@ Definition M_dropna_keep (reshaped : bool) (axis1 use_any : bool) (nrows : nat) 
   else map (fun ln => negb (if use_any then existsb (fun b => b) ln else forallb (fun b => b) ln))
            (if axis1 then isna_cols else transpose nrows isna_cols).
 
-(* S: which lines survive *)
-Definition S_keep {A} (axis1 use_any : bool) (nrows : nat) (cols : list (list (option A))) : list bool :=
-  map (fun ln => negb (line_drop use_any ln)) (if axis1 then cols else transpose nrows cols).
-
 Definition chk_dropna_keep_M (axis1 use_any : bool) (nrows : nat) (single1d : bool) (cols : list (list val)) (out : list bool) : bool :=
   blist_eqb (M_dropna_keep dropna_1d_reshaped axis1 use_any nrows single1d (map (map isna) cols)) out.
-Definition chk_dropna_keep_S (axis1 use_any : bool) (nrows : nat) (cols : list (list val)) (out : list bool) : bool :=
-  blist_eqb (S_keep axis1 use_any nrows (map cells_of cols)) out.
-
-Definition chk_fillna_frame_labels_S (index columns : list val) (cols : list (list val))
-    (oindex ocolumns : list val) (ocols : list (list val)) (out : list (list val)) : bool :=
-  lines_match (S_fillna_frame index columns (map cells_of cols) oindex ocolumns (map cells_of ocols)) out &&
-  present_kept_lines cols out.
